@@ -10,6 +10,26 @@ CHECKS = {
          "Every ordered endpoint pair on a 5x5 (thorough 6x6) lattice, zero-length included, against every half-step probe point and every other segment, in both operand orders, repeated under 5 exact float transforms (2^17, 2^-10, +-2^20 offsets, dyadic offset): raycast on/in, contains-point, collinear-point, intersects (exact + symmetric), contains-segment compared with integer orientation predicates. Complete enumeration, no sampling.",
          "Small-scope: all order types of (segment, point) and (segment, segment) configurations incl. 4 collinear points occur on a 5x5 lattice; coordinates outside the dyadic <=2^20 domain are not covered. Trusted: verif/mc/exact (two formulations cross-checked each run).",
          "DESIGN.md §3 C19"),
+ "C18": ("bounded exhaustive exploration of the vertex-sequence construction tree on the real constructors vs an exact reference model",
+         "Full construction tree of vertex sequences (length 0..5 over a 4x4 lattice and 0..6 over 3x3; thorough 0..6 / 0..7), nothing filtered, each node realised as closed ring, closed ring with repeated closing vertex, ring restarted at the next vertex and open series: convex flag, clockwise flag, segment count, every i-th segment and the bounding rectangle compared with the literal reading of the statement in exact integer arithmetic; direct invariance under closing-vertex repetition and rotation.",
+         "Small scope: the flags depend only on orientation signs of consecutive triples and the sign of the shoelace sum; all sign patterns of <= 6-7 vertices incl. duplicates and collinear runs occur on the lattice. Trusted: verif/mc/exact.",
+         "DESIGN.md §3 C18"),
+ "C01": ("bounded exhaustive exploration of construction trees (vertex sequences, hole sequences) x probe alphabet x index configurations on the real code vs exact crossing-parity model",
+         "Every vertex sequence <=5 (thorough <=6) over a 4x4 lattice as polygon exterior (as given and closed), every sequence <=4 (5) as line string, every rectangle, every hole sequence <=4 inside 7 curated exteriors, two-hole products; x all 49/81 half-step probe points x index configurations {none, r-tree, quadtree, default}; object level (Point, SimplePoint, Feature(Point) against Polygon/Rect/LineString/Feature wrappers, 13 ways of asking) on the shallower tree; scaled and translated copies up to 2^20.",
+         "Exactness only on dyadic coordinates <= 2^20 (the property's domain). Trusted: verif/mc/exact (parity vs winding cross-check each run).",
+         "DESIGN.md §3 C01"),
+ "C02": ("bounded exhaustive enumeration of ordered pairs of valid shapes on the real predicates vs exact set intersection",
+         "All ordered pairs over exhaustively built pools: all half-step points, all rectangles (zero-extent included), all lines of 2-3 positions on a 4x4 lattice, all simple rings <=5 on 3x3 (thorough: <=4 on 4x4), 3 curated exteriors x all valid triangle/quadrilateral holes, two-hole polygons; intersects in both operand orders against the exact oracle and against each other, under two index configurations.",
+         "Valid operands only (simple rings, holes inside, touching at isolated points). Small-scope hypothesis on contact configurations. Trusted: verif/mc/exact 1-D decomposition.",
+         "DESIGN.md §3 C02"),
+ "C03": ("bounded exhaustive enumeration of ordered pairs of valid shapes on the real predicates vs exact containment; exact-input known-finding sets",
+         "Same pools as C02; A.contains(B) for every ordered pair against the exact oracle (boundary of B inside A by exact 1-D decomposition + one interior sample per hole), two index configurations. Genuine defects of the on-edge case analysis, the line walk and the hole rules are listed by exact failing input (hashed key sets); any other failing input is a violation.",
+         "Valid operands only. Known-finding key sets were generated on the unchanged tree over the thorough scope and reviewed by class; a failing input outside them is reported. Trusted: verif/mc/exact.",
+         "DESIGN.md §3 C03"),
+ "C12": ("bounded exhaustive enumeration of pairs x transformation group elements / re-encodings on the real predicates, metamorphic (answers must not change), exact model used for attribution only",
+         "Every pair over pools on the symmetric 3x3 lattice (all simple rings <=5, all lines <=3, all rects, all half-step points, polygons with holes; thorough adds the 4x4 lattice) x 19 both-operand transforms (7 lattice symmetries, 3 translations on the input and the same 3 through Move, 3 power-of-two scalings) and every re-encoding of either operand (every start vertex, reversed, unclosed, holes reversed/restarted; lines reversed); 4 answers per pair compared with the untransformed ones.",
+         "Oracle-free trigger; the side that is wrong is identified with verif/mc/exact and matched (exact input) against the known-finding sets.",
+         "DESIGN.md §3 C12"),
 }
 PENDING_REASON = "check not built yet in this round (planned, see DESIGN.md §7); not claimed until its command exists"
 
